@@ -80,4 +80,20 @@ def updAt : Ty → Val → List Nat → Nat → Option Val
     | some (_, t', v') => (updAt t' v' p b).map fun nv => setPartV v k nv
     | none => none
 
+/-- offset (relative to the object), type and value of the PART at the end of a path of part indices (the empty path: the object) -/
+def partAt : Ty → Val → List Nat → Option (Nat × Ty × Val)
+ | t, v, [] => some (0, t, v)
+ | t, v, k :: p =>
+    match part t v k with
+    | some (o, t', v') => (partAt t' v' p).map fun (lo, t'', v'') => (o + lo, t'', v'')
+    | none => none
+
+/-- the value with the part at the end of the path replaced by `x` -/
+def setAt : Ty → Val → List Nat → Val → Option Val
+ | _, _, [], x => some x
+ | t, v, k :: p, x =>
+    match part t v k with
+    | some (_, t', v') => (setAt t' v' p x).map fun nv => setPartV v k nv
+    | none => none
+
 end Lay
